@@ -259,11 +259,28 @@ def chunks(vals, n):
 # ------------------------------------------------------------------------------------------
 
 
+RULE = ("every NumPy dtype (int8…uint64, float16…longdouble, complex64…complex256, bool for the model) x route spelling "
+        "(to, in_units, to_value, convert_to_units, in_base/in_cgs/in_mks, convert_to_base/cgs/mks, to_equivalent, to(equivalence=), "
+        "convert_to_equivalent, convert_to_units(equivalence=)) x scalar/array x exact unit pairs (integer, rational, offset, EM factors) "
+        "x values up to the dtype limits and around 2^11/2^24/2^53; every dtype pair x binary ufunc x scalar/array; every out= dtype; "
+        "distinct = distinct (route, dtype, shape, unit) / (ufunc, dtype0, dtype1, shapes) / out cell")
+
+
 def run(tier, seed):
+    import traceback
+
     import unyt  # noqa: F401
 
     chk = core.Check("C17", tier, seed)
     chk.proof = core.prove("C17", PROOF_MODULES, extra_targets=("drv_c17",), tier=tier)
+    try:
+        _sweep(chk, tier)
+    except Exception:  # noqa: BLE001 — a harness that cannot finish has not shown the property
+        chk.disagree("harness-error", traceback.format_exc()[-1500:])
+    return chk.finish(RULE)
+
+
+def _sweep(chk, tier):
     rng = chk.rng
     quick = tier == "quick"
 
@@ -338,13 +355,20 @@ def run(tier, seed):
             # to_value on a quantity: a Python float (binary64); fine when the expected float fits in it
             if not (kclass == "to_value" and isq and ed.kind == "f" and ed.itemsize <= 8):
                 chk.fail(f"dtype|to_value|quantity|{cls}|float", f"to_value on a {d.name} quantity returned a Python float",
-                         {"python": snippet(setup, call + "assert not isinstance(r, float), type(r)\n"), "dtype": d.name})
+                         {"python": snippet(setup, "try:\n    " + call.strip() + "\nexcept Exception:\n    r = None\n" + "assert not isinstance(r, float), type(r)\n"), "dtype": d.name})
                 return R
             got_dtype = np.dtype("f8")
             size = ed.itemsize  # value was rounded to the expected float before float()
         else:
             got_dtype = np.asarray(R.r).dtype
-            size = comp_size(got_dtype)
+            if got_dtype.kind not in "fc":
+                chk.fail(f"dtype|{kclass}|{cls}|{got_dtype.name}", f"{name} on {d.name} {shape} returned {got_dtype.name} data; {ed.name} required",
+                         {"python": snippet(setup, call + "assert np.asarray(r).dtype.kind in 'fc', np.asarray(r).dtype\n"),
+                          "dtype": d.name, "route": name, "got": got_dtype.name, "want": ed.name})
+                got_dtype = ed  # judge the values as if they had been stored in the required type
+            # values are judged at the precision of the *required* dtype (a wider result may hold
+            # values that were rounded to the required type on the way); ranges at the narrower one
+            size = min(comp_size(got_dtype), comp_size(ed))
             if got_dtype != ed:
                 key = f"dtype|{kclass}|{cls}|{got_dtype.name}"
                 chk.fail(key, f"{name} on {d.name} {shape} returned {got_dtype.name}; {ed.name} required",
@@ -376,7 +400,7 @@ def run(tier, seed):
             if not value_check(g, w, size, s):
                 wsrc = "[" + ", ".join(f"(Fraction({a.numerator},{a.denominator}), Fraction({b.numerator},{b.denominator}))" for a, b in w) + "]"
                 ssrc = "[" + ", ".join(f"Fraction({a.numerator},{a.denominator})" for a in s) + "]"
-                chk.fail(f"value|{kclass}|{cls}", f"{name} on {d.name} {shape} ({unit}): values are not the exact conversion rounded to {got_dtype.name}",
+                chk.fail(f"value|{kclass}|{cls}", f"{name} on {d.name} {shape} ({unit}): values are not the exact conversion rounded to {ed.name}",
                          {"python": snippet(setup, call + f"sel = {sel!r}\nrr = np.atleast_1d(np.asarray(r)).ravel()[sel]\nassert _close(rr, {wsrc}, {VPREC[size]}, {ssrc}), rr\n"),
                           "dtype": d.name, "route": name, "got": str(np.asarray(R.r)), "want": [str(float(a)) for a, _ in w][:8]})
         # ---- warning oracle: an integer that the result float cannot hold exactly was converted
@@ -421,6 +445,24 @@ def run(tier, seed):
                     groups = chunks(vals_all, 8)[: (2 if quick else 8)] if not isq else [[v] for v in vals_all[:3]]
                     for vals in groups:
                         check_case(d, isq, a, name, kclass, mroute, call, fac, off, vals, cancel_key=sysname)
+
+    # the warning, one large value at a time (a group of values would hide a raised threshold):
+    # 2^p+1 (the documented first casualty), 2^p+3, and 2^(p+j)+1 for every j up to the dtype's width
+    for d in scope:
+        if d.kind not in "iu" or d.itemsize < 2:
+            continue
+        p = PREC[d.itemsize]
+        info = np.iinfo(d)
+        cands = [2 ** p + 1, 2 ** p + 3] + [2 ** (p + j) + 1 for j in range(1, 8 * d.itemsize - p)]
+        cands = [v for v in cands if v <= info.max]
+        if d.kind == "i":
+            cands += [-v for v in cands[:4]]
+        for v in cands:
+            for isq in (False, True):
+                if isq and quick and abs(v) > 2 ** (p + 2):
+                    continue
+                for (name, kclass, mroute, call) in route_calls("km", "m", None, None) + base_calls("km", "mks")[:1] + base_calls("km", "mks")[2:3]:
+                    check_case(d, isq, "km", name, kclass, mroute, call, Fraction(1000), Fraction(0), [v] if isq else [1, v], cancel_key="m")
 
     # copy vs in-place agreement on values and dtype, directly
     for d in scope:
@@ -506,10 +548,16 @@ def run(tier, seed):
             return [True, False, True, True][:n]
         return [1.5, 2.0, 0.5, 3.25][:n]
 
+    BIN_PAIRS = [("m", "km", Fraction(1000)), ("km", "m", Fraction(1, 1000)), ("km", "mile", Fraction(25146, 15625))]
     for d0 in universe:
         for d1 in universe:
             e1 = expected_dtype(d1)
-            for s0, s1 in ((False, False), (True, False), (False, True), (True, True)) if not quick else ((False, False), (True, True)):
+            combos = []
+            for (ua, ub, fac_km_m) in BIN_PAIRS:
+                first = ua == "m"
+                for s0, s1 in (((False, False), (True, False), (False, True), (True, True)) if not quick else ((False, False), (True, True))) if first else ((False, False),):
+                    combos.append((ua, ub, fac_km_m, first, s0, s1))
+            for (ua, ub, fac_km_m, first, s0, s1) in combos:
                 if (s0 and d0.kind == "b") or (s1 and d1.kind == "b"):
                     continue
                 n0 = 1 if s0 else 4
@@ -518,14 +566,16 @@ def run(tier, seed):
                     n0 = n1 = 4
                 v0 = small_vals(d0, 4)[:n0]
                 v1 = small_vals(d1, 4)[:n1]
-                setup = arr_setup(v0, d0, "m", s0, "x") + arr_setup(v1, d1, "km", s1, "y")
+                setup = arr_setup(v0, d0, ua, s0, "x") + arr_setup(v1, d1, ub, s1, "y")
                 for (uf, fn) in arith + compare:
-                    if quick and (s0 or s1) and uf not in ("add", "less"):
+                    if quick and (s0 or s1 or not first) and uf not in ("add", "less"):
+                        continue
+                    if not first and uf not in ("add", "subtract", "less", "maximum"):
                         continue
                     iscmp = any(uf == c for c, _ in compare)
                     call = f"r = np.{uf}(x, y)\n"
                     R = Run(setup, call)
-                    chk.case(("binary", uf, d0.name, d1.name, s0, s1))
+                    chk.case(("binary", uf, d0.name, d1.name, s0, s1, ua))
                     chk.count(f"binary:{uf}")
                     if R.ok:
                         rd = np.asarray(R.r).dtype
@@ -547,11 +597,11 @@ def run(tier, seed):
                         continue
                     if not R.ok:
                         if not may_raise(d1):
-                            chk.fail(f"binary|raise|second={cls1}", f"np.{uf}({d0.name} m, {d1.name} km) raised {exc_class(R.exc)}",
+                            chk.fail(f"binary|raise|second={cls1}", f"np.{uf}({d0.name} {ua}, {d1.name} {ub}) raised {exc_class(R.exc)}",
                                      {"python": snippet(setup, call), "ufunc": uf, "dtypes": [d0.name, d1.name], "error": repr(R.exc)[:200]})
                         continue
                     if rd != want_dt:
-                        chk.fail(f"binary|dtype|second={cls1}", f"np.{uf}({d0.name} m, {d1.name} km) returned {rd.name}; {want_dt.name} required (operand converted in {e1.name})",
+                        chk.fail(f"binary|dtype|second={cls1}", f"np.{uf}({d0.name} {ua}, {d1.name} {ub}) returned {rd.name}; {want_dt.name} required (operand converted in {e1.name})",
                                  {"python": snippet(setup, call + f"assert np.asarray(r).dtype == np.dtype('{want_dt.name}'), np.asarray(r).dtype\n"), "ufunc": uf, "dtypes": [d0.name, d1.name]})
                     # values
                     if iscmp and (d0.kind == "c" or d1.kind == "c"):
@@ -565,7 +615,7 @@ def run(tier, seed):
                     if iscmp:
                         want = [bool(fn(p_[0], q_[0] * fac_km_m)) for p_, q_ in zip(x0, y0)]
                         if [bool(g) for g in got] != want:
-                            chk.fail(f"binary|value|second={cls1}", f"np.{uf}({d0.name} m, {d1.name} km) compares wrongly",
+                            chk.fail(f"binary|value|second={cls1}", f"np.{uf}({d0.name} {ua}, {d1.name} {ub}) compares wrongly",
                                      {"python": snippet(setup, call + f"assert [bool(v) for v in np.atleast_1d(np.asarray(r)).ravel()] == {want!r}, r\n")})
                         continue
                     if uf in ("maximum", "minimum", "fmax", "fmin") and (d0.kind == "c" or d1.kind == "c"):
@@ -585,7 +635,7 @@ def run(tier, seed):
                     if not value_check([g[i] for i in sel], [want[i] for i in sel], size, [scales[i] for i in sel]):
                         wsrc = "[" + ", ".join(f"(Fraction({w_[0].numerator},{w_[0].denominator}), Fraction({w_[1].numerator},{w_[1].denominator}))" for w_ in (want[i] for i in sel)) + "]"
                         ssrc = "[" + ", ".join(f"Fraction({s_.numerator},{s_.denominator})" for s_ in (scales[i] for i in sel)) + "]"
-                        chk.fail(f"binary|value|second={cls1}", f"np.{uf}({d0.name} m, {d1.name} km): values are not the exact result rounded (operand truncated or imaginary part lost)",
+                        chk.fail(f"binary|value|second={cls1}", f"np.{uf}({d0.name} {ua}, {d1.name} {ub}): values are not the exact result rounded (operand truncated or imaginary part lost)",
                                  {"python": snippet(setup, call + f"rr = np.atleast_1d(np.asarray(r)).ravel()[{sel!r}]\nassert _close(rr, {wsrc}, {VPREC[size]}, {ssrc}), rr\n"),
                                   "ufunc": uf, "dtypes": [d0.name, d1.name], "got": str(R.r)})
             # float-only ufuncs: dtype through live NumPy on the model's operand dtype
@@ -803,10 +853,3 @@ def run(tier, seed):
                 if not (mv == gv or (math.isnan(mv) and math.isnan(gv))):
                     chk.disagree("c17.value", f"{exp[1:4]}: model {m} vs implementation {g} ({rd.name})")
                     break
-
-    rule = ("every NumPy dtype (int8…uint64, float16…longdouble, complex64…complex256, bool for the model) x route spelling "
-            "(to, in_units, to_value, convert_to_units, in_base/in_cgs/in_mks, convert_to_base/cgs/mks, to_equivalent, to(equivalence=), "
-            "convert_to_equivalent, convert_to_units(equivalence=)) x scalar/array x exact unit pairs (integer, rational, offset, EM factors) "
-            "x values up to the dtype limits and around 2^11/2^24/2^53; every dtype pair x binary ufunc x scalar/array; every out= dtype; "
-            "distinct = distinct (route, dtype, shape, unit) / (ufunc, dtype0, dtype1, shapes) / out cell")
-    return chk.finish(rule)
